@@ -1274,6 +1274,26 @@ pub fn explicit_cells(seed: u64) -> Vec<Scenario> {
             }
         }
     }
+    // F. wrapped commands with delta's own options spelled in every way the command line allows
+    //    (`--opt value`, `--opt=value`, `-oVALUE`, bundled short flags) in front of the command: the
+    //    command is started and its status passed through
+    for (cclass, cmd) in [("git-show", vec!["git", "show"]), ("git-log", vec!["git", "log"]), ("git-diff-args", vec!["git", "diff", "--stat", "-p"]), ("rg", vec!["rg", "needle"])] {
+        for (sclass, opts) in [("separate", vec!["--paging", "never", "--width", "100"]), ("equals", vec!["--paging=never", "--width=100"]), ("short-attached", vec!["-w100", "--paging=never"]), ("short-bundled", vec!["-ns", "--paging", "never"]), ("none", vec![])] {
+            for st in [0i32, 1, 7] {
+                let mut spec = RunSpec::default();
+                spec.plan = Plan::basic(mix(seed, &[tag("cellhash-wrapspell"), out.len() as u64]));
+                spec.args = vec!["--no-gitconfig".into()];
+                spec.args.extend(opts.iter().map(|x| x.to_string()));
+                spec.args.extend(cmd.iter().map(|x| x.to_string()));
+                let outp: Vec<u8> = if cmd[0] == "rg" { Vec::new() } else { diff.clone() };
+                spec.child = Some(ChildSetup { names: vec!["git".into(), "rg".into()], stdout: outp.into(), stderr: Blob::default(), stderr_first: false, exit: st, git_version: "git version 2.45.1".into() });
+                spec.pager = Some(pg(0));
+                let paging = if sclass == "none" { "auto" } else { "never" };
+                let m = if sclass == "none" { Some(pager_model(None, None, None, None, None)) } else { None };
+                out.push(Scenario { name: format!("cell-wrapped-{}-{}-{}", cclass, sclass, st), kind: "wrapped".into(), sub: format!("spelling-{}-{}", cclass, sclass), spec, paging: paging.into(), expect_exit: st, tokens: if cmd[0] == "rg" { vec![] } else { tokens.clone() }, pager_model: m, stderr_may_be_nonempty: false, check_selection: sclass == "none", light: true });
+            }
+        }
+    }
     // E. less with arguments of delta's choosing x what the user's LESS variable says: whatever is in
     //    there, less must be told to pass colours through
     for (lclass, lessvar) in [("git-default", "FRX"), ("dash-r", "-r"), ("prompt-with-r", "-i -Ppager"), ("colour-spec-with-r", "-Dd+r -Du+b"), ("long-option", "--ignore-case"), ("empty", ""), ("R-already", "-R -F")] {
